@@ -679,6 +679,16 @@ void bufr_skip_bits ( BUFR_Message *bufr, int nbbits, int *errcode)
    bitno = bufr->s4.bitno;
 
 /*
+ * nothing is left to skip over once the cursor stands at the end of the data
+ */
+   if( ptrData >= (bufr->s4.data + bufr->s4.max_data_len) )
+      {
+      bufr_vprint_debug( _("Warning: bufr_skip_bits( %d ), out of bounds!\n"), nbbits);
+      *errcode = -1;
+      return;
+      }
+
+/*
  * saut par tranche de 8 bits
  */
    p1  = bitno % 8 ;
